@@ -29,13 +29,12 @@ Definition ev_ok (ev : event) : Prop :=
       mac_ok ch /\ (ip4_ok ci \/ is4 ci = false) /\ length xid = 4%nat /\ bytes_ok xid /\ dhcp_opts_ok opts
   | EvDeclineRelease ch ci xid opts =>
       mac_ok ch /\ ip4_ok ci /\ length xid = 4%nat /\ bytes_ok xid /\ dhcp_opts_ok opts
-  | EvMdnsQuery name | EvLlmnrQuery name =>
-      bytes_ok name /\ (length name <= 250)%nat /\ Forall label_ok (split_dots name [])
+  | EvMdnsQuery name | EvLlmnrQuery name => bytes_ok name   (* any name: unencodable ones are refused *)
   | EvMdns buf (_, si) (dm, di) port =>
       mac_ok dm /\ port < 65536 /\ bytes_ok buf /\
       ((ip4_ok si /\ ip4_ok di /\ (length buf <= 1480)%nat) \/ (ip6_ok si /\ ip6_ok di /\ (length buf <= 1460)%nat))
   | EvNbnsQuery (_, si) (dm, di) seq name =>
-      ip4_ok si /\ mac_ok dm /\ ip4_ok di /\ seq < 65536 /\ bytes_ok name /\ (length name <= 16)%nat
+      ip4_ok si /\ mac_ok dm /\ ip4_ok di /\ seq < 65536 /\ bytes_ok name   (* any length: > 16 is refused *)
   | EvNbnsStatus seq => seq < 65536
   | EvSsdp => True
   end.
@@ -67,10 +66,10 @@ Definition wf_event (c : cfg) (ev : event) (fr : bytes) : bool :=
       wf_udp4 hm (router_mac c) (host_ip4 c) (router_ip4 c) 68 67 (wf_dhcp_client ch ci (Some xid) opts) false fr
   | EvMdnsQuery name =>
       wf_udp4 hm (mac_of_mcast4 [224;0;0;251]) (host_ip4 c) [224;0;0;251] 5353 5353
-        (wf_dns_query None (split_dots name []) 255 255) true fr
+        (wf_dns_query None (query_labels name) 255 255) true fr
   | EvLlmnrQuery name =>
       wf_udp4 hm (mac_of_mcast4 [224;0;0;252]) (host_ip4 c) [224;0;0;252] 5355 5355
-        (wf_dns_query None (split_dots name []) 12 255) true fr
+        (wf_dns_query None (query_labels name) 12 255) true fr
   | EvMdns buf (_, si) (dm, di) port =>
       if is4 si then wf_udp4 hm dm si di port port (beq buf) false fr
       else wf_udp6 hm dm si di port port (beq buf) fr
@@ -122,12 +121,18 @@ Proof.
     one_frame (send_discover_wf c ch ci xid opts j1 C1 C2 C4 C5 A B D F G1 G2 G3 G4 HJ1).
   - destruct Hev as (A & B & D & F & (G1 & G2 & G3 & G4)).
     one_frame (decline_release_wf c ch ci xid opts j1 j2 C1 C2 C4 C5 A B D F G1 G2 G3 G4 HJ1 HJ2).
-  - destruct Hev as (A & B & D). one_frame (mdns_query_wf c name C1 C2 A B D).
-  - destruct Hev as (A & B & D). one_frame (llmnr_query_wf c name C1 C2 A B D).
+  - destruct (dns_pack_ok name) eqn:Epk.
+    + one_frame (mdns_query_wf c name C1 C2 Hev Epk).
+    + cbn [emit] in Hin. rewrite (mdns_query_refuses c name Epk) in Hin. destruct Hin.
+  - destruct (dns_pack_ok name) eqn:Epk.
+    + one_frame (llmnr_query_wf c name C1 C2 Hev Epk).
+    + cbn [emit] in Hin. rewrite (llmnr_query_refuses c name Epk) in Hin. destruct Hin.
   - destruct Hev as (A & B & D & [(F & G & K)|(F & G & K)]).
     + unfold is4. rewrite (proj1 F). cbn [Nat.eqb]. one_frame (mdns4_wf c buf sm si dm di port C1 F A G B D K).
     + unfold is4. rewrite (proj1 F). cbn [Nat.eqb]. one_frame (mdns6_wf c buf sm si dm di port C1 F A G B D K).
-  - destruct Hev as (A & B & D & F & G & K). one_frame (nbns_query_wf c sm si dm di seq name j1 C1 A B D F G K HJ1).
+  - destruct Hev as (A & B & D & F & G). destruct (le_lt_dec (length name) 16) as [K|K].
+    + one_frame (nbns_query_wf c sm si dm di seq name j1 C1 A B D F G K HJ1).
+    + cbn [emit] in Hin. rewrite (nbns_query_refuses c (sm, si) (dm, di) seq name j1 K) in Hin. destruct Hin.
   - one_frame (nbns_node_status_wf c seq j1 C1 C2 Hev HJ1).
   - one_frame (ssdp_wf c j1 C1 C2 HJ1).
 Qed.
